@@ -75,6 +75,13 @@ func plan(variant int) ([]wop, []map[string]string) {
 			return l
 		}
 		ops = []wop{{kind: "sync", list: gen("1")}, {kind: "sync", list: gen("2")}, {kind: "sync", list: gen("3")[:150]}}
+	case 5: // the cache's context ends in the middle of a relist (see run): the relist is applied as a whole or the cache stops answering
+		c := func(rv, l string) metav1.Object { return hx.Pod("ns", "c", rv, l) }
+		ops = []wop{
+			{kind: "sync", list: objs(a("1", "l=1"), b("1", "l=1"), c("1", "l=1"))},
+			{kind: "sync", list: objs(a("2", "l=1"), b("2", "l=1"))},
+			{kind: "sync", list: objs(a("3", "l=1"), b("3", "l=1"), c("3", "l=1"))},
+		}
 	default: // relist + refilter back-to-back replacing everything
 		ops = []wop{
 			{kind: "sync", list: objs(a("1", "l=1"))},
@@ -163,7 +170,22 @@ func (in *inst) run() {
 	in.model(ops)
 	ctx := context.Background()
 	stop := make(chan struct{})
-	c := kcache.VNewCache(ctx, hx.Log, stop, filter.Null())
+	var f filter.Filter = filter.Null()
+	cancelled := false
+	isCancelled := func() (b bool) { vs.Atomic("cancel", func() { b = cancelled }); return }
+	if in.variant == 5 {
+		// the context is cancelled from inside the filter while the second relist is at its first entry
+		var cancel context.CancelFunc
+		ctx, cancel = context.WithCancel(ctx)
+		f = filter.FN(func(o metav1.Object) bool {
+			if o.GetName() == "a" && o.GetResourceVersion() == "2" {
+				vs.Atomic("cancel", func() { cancelled = true })
+				cancel()
+			}
+			return true
+		})
+	}
+	c := kcache.VNewCache(ctx, hx.Log, stop, f)
 	fin := make(chan bool)
 	go func() { // writer
 		for i, op := range ops {
@@ -179,6 +201,9 @@ func (in *inst) run() {
 				_, err = c.Refilter(op.list, op.filter)
 			case "update":
 				_, err = c.Update(op.ev)
+			}
+			if err != nil && isCancelled() {
+				break // the cache went down with its context: the operation may or may not have been applied
 			}
 			if err != nil {
 				vs.Fail("writer op %s failed: %v", op.kind, err)
@@ -205,6 +230,10 @@ func (in *inst) run() {
 				switch kind {
 				case "list":
 					l, err := c.List()
+					if err != nil && isCancelled() {
+						fin <- true
+						return
+					}
 					if err != nil {
 						vs.Fail("List: %v", err)
 					}
@@ -570,6 +599,7 @@ func Property() runner.Property {
 			out = append(out, fscenario(1, 2, "S2", 3), fscenario(2, 2, "S2", 3), fscenarioDel(true, 1, 2, "S2", 3))
 			out = append(out, scenario(4, 1, "list,list", "S2", 3), scenario(4, 2, "list", "S2", 2))
 			out = append(out, escenario("S2", 3))
+			out = append(out, scenario(5, 1, "list,list,list", "S2", 3), scenario(5, 2, "list,list", "S2", 2))
 			if tier == "thorough" {
 				out = append(out, fscenario(1, 2, "S1", 0), fscenario(2, 2, "S2", 4), fscenario(3, 2, "S2", 3), fscenarioDel(true, 2, 2, "S2", 4))
 				for v := 0; v < 3; v++ {
